@@ -391,6 +391,90 @@ crypto map map-dmz interface dmz
 access-list inside_in extended permit ip any4 any4
 access-group inside_in in interface inside
 `),
+		// the device's tunnel-group authenticates against an aaa-server of ANOTHER name (both exist on the device, both with the
+		// attribute map): only the reference in the tunnel-group changes; aaa-servers and the map are never written (coverage item 5)
+		mk("tunnel-group-uses-other-aaa-server", `
+group-policy VPN-ldap-0-DRC-0 internal
+group-policy VPN-ldap-0-DRC-0 attributes
+ vpn-idle-timeout 60
+crypto ca certificate map ca-map-1-DRC-0 10
+ subject-name attr ea co @sub1.example.com
+aaa-server LDAP_A protocol ldap
+aaa-server LDAP_A (inside) host 10.2.8.16
+ ldap-base-dn DC=example,DC=com
+ ldap-attribute-map LDAPMAP1
+aaa-server LDAP_B protocol ldap
+aaa-server LDAP_B (inside) host 10.2.8.20
+ ldap-base-dn DC=example,DC=com
+ ldap-attribute-map LDAPMAP1
+ldap attribute-map LDAPMAP1
+ map-name memberOf Group-Policy
+ map-value memberOf "CN=g-m0,OU=VPN,DC=example,DC=com" VPN-ldap-0-DRC-0
+tunnel-group VPN-tunnel-1-DRC-0 type remote-access
+tunnel-group VPN-tunnel-1-DRC-0 general-attributes
+ authentication-server-group LDAP_B
+tunnel-group-map ca-map-1-DRC-0 10 VPN-tunnel-1-DRC-0
+`, `
+group-policy VPN-ldap-0 internal
+group-policy VPN-ldap-0 attributes
+ vpn-idle-timeout 60
+crypto ca certificate map ca-map-1 10
+ subject-name attr ea co @sub1.example.com
+aaa-server LDAP_A protocol ldap
+aaa-server LDAP_A host X
+ ldap-attribute-map LDAPMAP1
+ldap attribute-map LDAPMAP1
+ map-name memberOf Group-Policy
+ map-value memberOf "CN=g-m0,OU=VPN,DC=example,DC=com" VPN-ldap-0
+tunnel-group VPN-tunnel-1 type remote-access
+tunnel-group VPN-tunnel-1 general-attributes
+ authentication-server-group LDAP_A
+tunnel-group-map ca-map-1 10 VPN-tunnel-1
+`),
+		// the certificate map of the device's certificate-group-map rule is replaced: the tunnel-group-map rule is new and transfers the
+		// map under a new name first; `no <old rule>` then the new rule inside webvpn (runs under C10 too: cuts between the two; item 9)
+		mk("certificate-map-of-webvpn-rule-replaced", `
+crypto ca certificate map ca-map-1-DRC-0 10
+ subject-name attr ea co @sub1.example.com
+tunnel-group VPN-tunnel-1-DRC-0 type remote-access
+tunnel-group VPN-tunnel-1-DRC-0 ipsec-attributes
+ trust-point TP1
+crypto ca certificate map ca-map-2-DRC-0 20
+ subject-name attr ea co @sub2.example.com
+tunnel-group VPN-tunnel-2-DRC-0 type remote-access
+tunnel-group-map ca-map-2-DRC-0 20 VPN-tunnel-2-DRC-0
+webvpn
+ certificate-group-map ca-map-1-DRC-0 10 VPN-tunnel-1-DRC-0
+ certificate-group-map ca-map-2-DRC-0 20 VPN-tunnel-2-DRC-0
+`, `
+crypto ca certificate map ca-map-1 10
+ subject-name attr ea co @sub1.example.com
+tunnel-group VPN-tunnel-1 type remote-access
+tunnel-group VPN-tunnel-1 ipsec-attributes
+ trust-point TP2
+crypto ca certificate map ca-map-2 20
+ subject-name attr ea co @sub2.example.com
+tunnel-group VPN-tunnel-2 type remote-access
+tunnel-group-map ca-map-1 10 VPN-tunnel-1
+tunnel-group-map ca-map-2 20 VPN-tunnel-2
+webvpn
+ certificate-group-map ca-map-1 10 VPN-tunnel-1
+ certificate-group-map ca-map-2 20 VPN-tunnel-2
+`),
+		// built-in objects: referenced without being defined (target), partly defined on the device only (coverage item 13)
+		mk("built-in-objects-referenced-and-partly-defined", `
+tunnel-group DefaultRAGroup ipsec-attributes
+ trust-point TP9
+group-policy DfltGrpPolicy attributes
+ vpn-idle-timeout 30
+tunnel-group-map default-group DefaultL2LGroup
+`, `
+tunnel-group DefaultRAGroup general-attributes
+ default-group-policy DfltGrpPolicy
+tunnel-group DefaultWEBVPNGroup webvpn-attributes
+ authentication certificate
+tunnel-group-map default-group DefaultRAGroup
+`),
 		// the target has no VPN part at all: everything is removed in an order the device accepts
 		mk("everything-removed", `
 access-list vpn-filter-DRC-0 extended permit ip host 10.3.4.1 10.1.1.0 255.255.255.0
